@@ -2,6 +2,7 @@
     Fair-queue level: for EVERY interleaving of the receiver's critical sections with wakes, inserts,
     removes and arrivals (labels of Model/FairQueue.v), with no assumption on the environment. *)
 From ZV Require Import Base.Bytes Base.Res Model.Codec Model.FairQueue Proofs.FairQueueProofs Proofs.Decoder Proofs.CodecRoundtrip Spec.Stream.
+From ZV Require Model.World Proofs.WorldStreamDefs Proofs.WorldStream.
 
 (** everything a stream yielded has been returned exactly once, in the stream's order; nothing is
     lost, duplicated or reordered, whatever the schedule *)
@@ -23,3 +24,25 @@ Print Assumptions C05_fq_no_stream_lost.
 Theorem C05_stream_items_are_spec : forall chunks, lib_items chunks false = spec_items (concat chunks).
 Proof. exact Proofs.CodecRoundtrip.chunks_eq_spec. Qed.
 Print Assumptions C05_stream_items_are_spec.
+
+(** the same at the level of the whole socket model (Model/World.v: byte-accurate connections, decoder,
+    fair queue, disconnect on error), for the six socket types with a fair queue: whatever the
+    interleaving of arrivals (any chunking), closes and recv calls, the items handed out for
+    connection k are a prefix of the declarative reading of what k's peer wrote - in order, each once,
+    nothing invented ... *)
+Theorem C05_world_in_order_exactly_once : forall t cs es k,
+  World.has_fq t = true -> NoDup cs -> In k cs ->
+  WorldStreamDefs.is_prefix_of
+    (WorldStreamDefs.outs_of k (fst (WorldStreamDefs.wrun (WorldStreamDefs.attached t cs) es)))
+    (WorldStreamDefs.expected (WorldStreamDefs.chunks_of k es) (WorldStreamDefs.closed_of k es)).
+Proof. exact WorldStream.world_stream_prefix. Qed.
+Print Assumptions C05_world_in_order_exactly_once.
+
+(** ... and nothing is lost: when a recv finds nothing to hand out, every connection has been read to
+    the end of what its peer wrote so far *)
+Theorem C05_world_nothing_lost : forall t cs es rs w,
+  World.has_fq t = true -> NoDup cs ->
+  WorldStreamDefs.wrun (WorldStreamDefs.attached t cs) (es ++ [WorldStreamDefs.WNext]) = (rs, w) -> last rs None = None ->
+  forall k, In k cs -> WorldStreamDefs.outs_of k rs = WorldStreamDefs.expected (WorldStreamDefs.chunks_of k es) (WorldStreamDefs.closed_of k es).
+Proof. exact WorldStream.world_stream_complete. Qed.
+Print Assumptions C05_world_nothing_lost.
